@@ -169,6 +169,9 @@ def check(run):
             det = f"close-test={c1} open-test={c2} updates={d1 and d2} negative-test={c3} truncate-and-stop={trunc}"
     run.ob("R7-delimiting", "find_cmd_strings/first-unbalanced-paren", ok7, w(fc.node),
            "the command is cut at the first position where closing parentheses outnumber opening ones, and the scan stops there", det, mech="loop-shape + truth tables")
+    # the look-back for the enclosing quote / FOR-loop opener reads the text backwards from the token
+    n_rev = common.reverse_slices_do_not_wrap(run, "R7-delimiting", [prog.fn("decoders.shell.find_powershell_strings"), prog.fn("decoders.shell.find_cmd_strings")])
+    need(n_rev >= 1, "anchor: the shell decoders look backwards from the token with a reverse slice")
     run.floor("R3-enc-switch", 12)
 
 
